@@ -142,18 +142,20 @@ class FramerDelivers(FunctionContract):
             I.call_value(callback, [msg], {})
         E.set(fr, '_buffer', _fresh_bytes(E, 'buffer_after', 0, 600))
         if k == 3:
-            raise E.Raised(E.choice('framer_raises', ['ModbusIOException', 'struct.error']))      # the one the manager catches / one it does not
+            CUR['raised_after_delivery'] = True
+            raise E.Raised(E.choice('framer_raises', ['ModbusIOException'] if CUR.get('only_io') else ['ModbusIOException', 'struct.error']))      # the one the manager catches / one it does not
         return None
 
     def unit(self):
         return None
 
 
-def make_client(E, kind, wire, rec, retries, retry_on_empty, retry_on_invalid, transport, connect_ok=True, udp=False):
+def make_client(E, kind, wire, rec, retries, retry_on_empty, retry_on_invalid, transport, connect_ok=True, udp=False, decoder_outcomes=('message',)):
     """client + DictTransactionManager + real framer of `kind`; transport(n_read, size) -> bytes | raises"""
     CUR['rec'], CUR['wire'] = rec, wire
+    CUR['raised_after_delivery'] = False
     frm = [None]
-    dec = F.decoder(E, rec, frm, outcomes=('message',), size_of=lambda fc, buf: E.int('oracle_size_%d' % len(rec.decoded), 4, 300))
+    dec = F.decoder(E, rec, frm, outcomes=decoder_outcomes, size_of=lambda fc, buf: E.int('oracle_size_%d' % len(rec.decoded), 4, 300), empty='none', per_call=True)
 
     def connect():
         wire.connects += 1
